@@ -35,6 +35,10 @@ def containers(vals, integral):
         out["seriesint"] = pl.Series([int(v) for v in vals])
         if len(vals) > 1:
             out["listmixed"] = [int(v) if i % 2 == 0 else float(v) for i, v in enumerate(vals)]
+        if all(0 <= v <= 255 for v in vals):
+            # unsigned integers (count data; polars' own count columns are UInt32): differences must not wrap around
+            out["u8"] = np.asarray([int(v) for v in vals], dtype=np.uint8)
+            out["seriesu32"] = pl.Series([int(v) for v in vals], dtype=pl.UInt32)
     return out
 
 
